@@ -1,6 +1,609 @@
-//! C36 — not implemented yet.
+//! C36 — Scalar functions compute their documented values.
+//!
+//! Every case picks one function signature from the table in `c36_specs.rs`
+//! and a batch of argument tuples (empty / multi-byte strings, negative, zero,
+//! boundary numbers, NULLs). The call is evaluated through SQL
+//!   * over columns of a generated table, in one batch and re-sliced at
+//!     random cut points (vectorised path),
+//!   * with every argument written as a literal (literal path; the optimizer
+//!     does not fold scalar functions, so this exercises literal typing,
+//!     `constant_int_value` fast paths and NULL literals),
+//!   * "mixed": some arguments columns, the others literals (the usual shape
+//!     `SUBSTR(col, 2, 3)` that has dedicated kernels),
+//! and the check demands
+//!   (1) agreement with the independent reference of the table (Rust std only,
+//!       own calendar arithmetic) wherever a repo document settles the value,
+//!   (2) laws (round trips, idempotence, additivity, digests' known answers),
+//!   (3) NULL argument => NULL for strict arguments, and equality of all
+//!       evaluation paths on every tuple.
+//! An engine error is never a wrong value (labelled `err:`), a panic neither
+//! (labelled `panic:`); both are reported in the evidence labels.
 use super::Property;
+use crate::data::*;
+use crate::engine::*;
+use crate::runner::*;
+use proptest::prelude::*;
+use query_engine::ExecutionContext;
+use serde::{Deserialize, Serialize};
+use std::sync::OnceLock;
+
+#[path = "c36_gen.rs"]
+mod gen;
+#[path = "c36_kat.rs"]
+mod kat;
+#[path = "c36_ref.rs"]
+mod r;
+#[path = "c36_specs.rs"]
+mod specs;
+
+use r::Exp;
+use specs::{Fam, Spec};
+
+fn table() -> &'static Vec<Spec> {
+    static T: OnceLock<Vec<Spec>> = OnceLock::new();
+    T.get_or_init(specs::build)
+}
+fn find(name: &str) -> Option<&'static Spec> {
+    table().iter().find(|s| s.name == name)
+}
+
+#[derive(Clone, Debug, Serialize, Deserialize)]
+pub struct FnCase {
+    /// key into the function table
+    pub spec: String,
+    /// arguments written as literals in the mixed evaluation (they are
+    /// constant over `rows`)
+    pub lit_mask: Vec<bool>,
+    /// write NULL literals bare instead of CAST(NULL AS type)
+    pub bare_null: bool,
+    pub rows: Vec<Vec<Value>>,
+    pub cuts: Vec<usize>,
+}
+
+// ---------------------------------------------------------------------------
+// generation
+// ---------------------------------------------------------------------------
+
+fn default_for(ty: ColType) -> Value {
+    match ty {
+        ColType::Int | ColType::Int32 => Value::Int(1),
+        ColType::Double => Value::Double(1.5),
+        ColType::Str => Value::Str("m".into()),
+        ColType::Date => Value::Date(19000),
+        ColType::Bool => Value::Bool(true),
+    }
+}
+fn asciify(v: &mut Value) {
+    if let Value::Str(s) = v {
+        if !s.is_ascii() {
+            *s = s.chars().map(|c| if c.is_ascii() { c } else { 'x' }).collect();
+        }
+    }
+}
+
+/// Steer a generated case away from the open known-finding classes (applied
+/// to ~85 % of the cases so the search continues behind them).
+fn steer(spec: &Spec, c: &mut FnCase) {
+    // NULLs in arguments whose NULL handling is a known finding
+    for row in c.rows.iter_mut() {
+        for (k, pct) in spec.nulls.iter().enumerate() {
+            if *pct > 0 && *pct < 7 && row[k].is_null() {
+                row[k] = default_for(spec.kinds[k].coltype());
+            }
+        }
+    }
+    match spec.name {
+        "LENGTH" | "CHAR_LENGTH" | "STRPOS" | "POSITION" | "HAMMING_DISTANCE" => {
+            for row in c.rows.iter_mut() {
+                for v in row.iter_mut() {
+                    asciify(v);
+                }
+            }
+        }
+        "CRC32" => {
+            for row in c.rows.iter_mut() {
+                if let Value::Str(s) = &mut row[0] {
+                    let mut tries = 0;
+                    while r::crc32(s.as_bytes()) >= (1 << 31) && tries < 40 {
+                        s.push((b'a' + (tries % 26) as u8) as char);
+                        tries += 1;
+                    }
+                }
+            }
+        }
+        "SUBSTR/2" | "SUBSTRING/3" | "SUBSTRING/from-for" => {
+            let all_lit = c.lit_mask.iter().skip(1).all(|m| *m);
+            if !all_lit {
+                for row in c.rows.iter_mut() {
+                    if row[0].is_null() {
+                        row[0] = Value::Str("x".into());
+                    }
+                }
+            }
+        }
+        _ => {}
+    }
+}
+
+fn case_strategy(fam: Fam, tier: Tier) -> BoxedStrategy<FnCase> {
+    let idxs: Vec<usize> = table().iter().enumerate().filter(|(_, s)| s.fam == fam).map(|(i, _)| i).collect();
+    let max_rows = tier.pick(16usize, 32usize);
+    proptest::sample::select(idxs)
+        .prop_flat_map(move |si| {
+            let spec = &table()[si];
+            let row: Vec<BoxedStrategy<gen::Raw>> = spec.kinds.iter().zip(spec.nulls.iter()).map(|(k, n)| gen::raw(*k, *n)).collect();
+            let nk = spec.kinds.len();
+            (
+                proptest::collection::vec(row, 1..=max_rows),
+                proptest::collection::vec(any::<bool>(), nk),
+                0u8..100,
+                proptest::collection::vec(0usize..=max_rows, 0..4),
+                0u8..100,
+                0u8..100,
+            )
+                .prop_map(move |(raws, mut mask, mask_sel, cuts, steer_sel, bare_sel)| {
+                    let spec = &table()[si];
+                    let mut rows: Vec<Vec<Value>> = raws.iter().map(|rw| gen::finish_row(&spec.kinds, rw)).collect();
+                    // half of the cases: every argument varies per row
+                    if mask_sel < 50 {
+                        for m in mask.iter_mut() {
+                            *m = false;
+                        }
+                    }
+                    // known finding: parameters read at row 0 only -> mostly constant
+                    if mask_sel % 10 != 0 {
+                        for k in &spec.row0 {
+                            mask[*k] = true;
+                        }
+                    }
+                    // dependent kinds follow their source: keep them varying
+                    for (k, kind) in spec.kinds.iter().enumerate() {
+                        if kind.dependent() && !spec.row0.contains(&k) {
+                            mask[k] = false;
+                        }
+                    }
+                    let first = rows[0].clone();
+                    for row in rows.iter_mut() {
+                        for (k, m) in mask.iter().enumerate() {
+                            if *m {
+                                row[k] = first[k].clone();
+                            }
+                        }
+                    }
+                    let mut c = FnCase { spec: spec.name.to_string(), lit_mask: mask, bare_null: bare_sel < 8, rows, cuts };
+                    if steer_sel < 85 {
+                        steer(spec, &mut c);
+                    }
+                    c
+                })
+        })
+        .boxed()
+}
+
+// ---------------------------------------------------------------------------
+// evaluation through SQL
+// ---------------------------------------------------------------------------
+
+fn sqltype(ty: ColType) -> &'static str {
+    match ty {
+        ColType::Int | ColType::Int32 => "BIGINT",
+        ColType::Double => "DOUBLE",
+        ColType::Str => "VARCHAR",
+        ColType::Date => "DATE",
+        ColType::Bool => "BOOLEAN",
+    }
+}
+
+fn lit(v: &Value, ty: ColType, bare_null: bool) -> String {
+    match v {
+        Value::Null => {
+            if bare_null {
+                "NULL".into()
+            } else {
+                format!("CAST(NULL AS {})", sqltype(ty))
+            }
+        }
+        Value::Double(d) if d.is_nan() => "NAN()".into(),
+        Value::Double(d) if d.is_infinite() => {
+            if *d > 0.0 {
+                "INFINITY()".into()
+            } else {
+                "(-INFINITY())".into()
+            }
+        }
+        Value::Int(i) if ty == ColType::Double => Value::Double(*i as f64).sql(),
+        _ => v.sql(),
+    }
+}
+
+fn render(tpl: &str, args: &[String]) -> String {
+    let mut out = tpl.to_string();
+    for (k, a) in args.iter().enumerate() {
+        out = out.replace(&format!("{{{}}}", k), a);
+    }
+    out
+}
+
+fn call_with_literals(spec: &Spec, tpl: &str, tuple: &[Value], bare: bool) -> String {
+    let args: Vec<String> = tuple.iter().zip(spec.kinds.iter()).map(|(v, k)| lit(v, k.coltype(), bare)).collect();
+    render(tpl, &args)
+}
+
+/// rows of an answer; columns of Arrow type Null are SQL NULLs
+fn rows_fixed(a: &Answer) -> Rows {
+    let mut out = vec![];
+    for b in &a.batches {
+        for i in 0..b.num_rows() {
+            out.push(
+                (0..b.num_columns())
+                    .map(|c| {
+                        let col = b.column(c);
+                        if col.data_type() == &arrow::datatypes::DataType::Null {
+                            Value::Null
+                        } else {
+                            cell(col.as_ref(), i)
+                        }
+                    })
+                    .collect(),
+            );
+        }
+    }
+    out
+}
+
+fn arg_table(spec: &Spec, rows: &[Vec<Value>], id0: usize) -> Table {
+    let mut cols = vec![Column { name: "id".into(), ty: ColType::Int }];
+    for (k, kind) in spec.kinds.iter().enumerate() {
+        cols.push(Column { name: format!("a{}", k), ty: kind.coltype() });
+    }
+    Table {
+        name: "t".into(),
+        cols,
+        rows: rows
+            .iter()
+            .enumerate()
+            .map(|(i, r)| {
+                let mut row = vec![Value::Int((id0 + i) as i64)];
+                row.extend(r.iter().cloned());
+                row
+            })
+            .collect(),
+    }
+}
+
+/// `SELECT id, <expr> FROM t` over the argument table split at `cuts`
+fn eval_table(spec: &Spec, rows: &[Vec<Value>], expr: &str, cuts: &[usize]) -> Result<Vec<Value>, String> {
+    let t = arg_table(spec, rows, 0);
+    let mut ctx = ExecutionContext::new();
+    register_mem(&mut ctx, &t, cuts);
+    let sql = format!("SELECT id, {} AS r FROM t", expr);
+    let a = run_sql_full(&ctx, &sql)?;
+    let mut got = rows_fixed(&a);
+    if got.len() != rows.len() {
+        return Err(format!("WRONG-ROWCOUNT: {} rows for {} input rows", got.len(), rows.len()));
+    }
+    got.sort_by_key(|r| match r[0] {
+        Value::Int(i) => i,
+        _ => -1,
+    });
+    for (i, rr) in got.iter().enumerate() {
+        if rr[0] != Value::Int(i as i64) {
+            return Err(format!("WRONG-ROWCOUNT: ids are not 0..{}", rows.len()));
+        }
+    }
+    Ok(got.into_iter().map(|mut rr| rr.pop().unwrap()).collect())
+}
+
+type Outcome = Result<Value, String>;
+
+/// column-path evaluation; when the statement fails as a whole the rows are
+/// evaluated one at a time so that one erroring tuple does not hide the rest
+fn eval_cols(spec: &Spec, rows: &[Vec<Value>], expr: &str, cuts: &[usize]) -> Vec<Outcome> {
+    match eval_table(spec, rows, expr, cuts) {
+        Ok(v) => v.into_iter().map(Ok).collect(),
+        Err(e) if e.starts_with("WRONG-ROWCOUNT") => rows.iter().map(|_| Err(e.clone())).collect(),
+        Err(_) => rows
+            .iter()
+            .map(|row| eval_table(spec, std::slice::from_ref(row), expr, &[]).map(|mut v| v.pop().unwrap()))
+            .collect(),
+    }
+}
+
+fn one_row_ctx() -> ExecutionContext {
+    let t = Table { name: "one".into(), cols: vec![Column { name: "id".into(), ty: ColType::Int }], rows: vec![vec![Value::Int(0)]] };
+    mem_ctx(&[t])
+}
+
+/// literal-path evaluation: all tuples in one statement, or one by one when
+/// the statement fails
+fn eval_lits(exprs: &[String]) -> Vec<Outcome> {
+    let ctx = one_row_ctx();
+    let items: Vec<String> = exprs.iter().enumerate().map(|(i, e)| format!("{} AS r{}", e, i)).collect();
+    let sql = format!("SELECT {} FROM one", items.join(", "));
+    if let Ok(a) = run_sql_full(&ctx, &sql) {
+        let got = rows_fixed(&a);
+        if got.len() == 1 && got[0].len() == exprs.len() {
+            return got.into_iter().next().unwrap().into_iter().map(Ok).collect();
+        }
+    }
+    exprs
+        .iter()
+        .map(|e| {
+            let a = run_sql_full(&ctx, &format!("SELECT {} AS r FROM one", e))?;
+            let got = rows_fixed(&a);
+            if got.len() == 1 && got[0].len() == 1 {
+                Ok(got[0][0].clone())
+            } else {
+                Err(format!("WRONG-ROWCOUNT: {} rows from a one-row table", got.len()))
+            }
+        })
+        .collect()
+}
+
+// ---------------------------------------------------------------------------
+// oracle
+// ---------------------------------------------------------------------------
+
+fn expectation(spec: &Spec, tuple: &[Value]) -> Exp {
+    for (k, v) in tuple.iter().enumerate() {
+        if v.is_null() && spec.strict[k] {
+            return Exp::V(Value::Null);
+        }
+    }
+    (spec.refn)(tuple)
+}
+
+fn agrees(spec: &Spec, got: &Value, want: &Exp) -> Result<(), String> {
+    match want {
+        Exp::Undoc => Ok(()),
+        Exp::V(w) => {
+            if value_eq(got, w, 0.0) {
+                Ok(())
+            } else {
+                Err(format!("documented value {}", fmt_value(w)))
+            }
+        }
+        Exp::A(w) => {
+            if value_eq(got, &Value::Double(*w), spec.tol) {
+                Ok(())
+            } else {
+                Err(format!("reference value {:?} (rel. tolerance {:e})", w, spec.tol))
+            }
+        }
+        Exp::P(p) => p(got).map_err(|e| format!("requirement: {}", e)),
+    }
+}
+
+struct Failure {
+    path: &'static str,
+    row: usize,
+    /// first row of the batch the row was evaluated in (column paths)
+    batch_first: Option<usize>,
+    got: Value,
+    /// for path disagreements: the other path, its value and its batch start
+    other: Option<(&'static str, Value, Option<usize>)>,
+    /// true when the value contradicts the reference (not only another path)
+    vs_reference: bool,
+    msg: String,
+}
+
+fn batch_first(cuts: &[usize], n: usize, row: usize) -> usize {
+    let mut pts: Vec<usize> = cuts.iter().map(|c| (*c).min(n)).collect();
+    pts.sort();
+    let mut lo = 0;
+    for p in pts {
+        if row < p {
+            break;
+        }
+        lo = p;
+    }
+    lo
+}
+
+fn tuple_is_nontrivial(t: &[Value]) -> bool {
+    t.iter().any(|v| match v {
+        Value::Null => true,
+        Value::Str(s) => s.is_empty() || !s.is_ascii(),
+        Value::Int(i) => *i <= 0 || *i >= (1 << 31),
+        Value::Double(d) => *d <= 0.0 || !d.is_finite() || d.abs() >= 4503599627370496.0,
+        Value::Date(d) => *d < 0 || r::civil_from_days(*d as i64).2 >= 28,
+        Value::Bool(_) => false,
+    })
+}
+
+/// Signatures of the open known findings (see known_findings.json).
+fn classify(spec: &Spec, c: &FnCase, f: &Failure) -> Option<&'static str> {
+    known::classify(spec, c, f)
+}
+
+#[path = "c36_known.rs"]
+mod known;
+
+fn run_case(c: &FnCase, obs: &mut Obs) -> Verdict {
+    let spec = match find(&c.spec) {
+        Some(s) => s,
+        None => return Verdict::Discard(format!("unknown function key {}", c.spec)),
+    };
+    let nk = spec.kinds.len();
+    if c.rows.is_empty() || c.rows.iter().any(|r| r.len() != nk) || c.lit_mask.len() != nk {
+        return Verdict::Discard("malformed case".into());
+    }
+    let n = c.rows.len();
+    obs.label(format!("fn:{}", spec.name));
+    obs.nontrivial(c.rows.iter().any(|t| tuple_is_nontrivial(t)) || nk == 0);
+    let want: Vec<Exp> = c.rows.iter().map(|t| expectation(spec, t)).collect();
+    if want.iter().all(|w| matches!(w, Exp::Undoc)) {
+        obs.label("reference:none");
+    } else {
+        obs.label("reference:some");
+    }
+
+    let col_args: Vec<String> = (0..nk).map(|k| format!("a{}", k)).collect();
+    let col_expr = render(&spec.tpl, &col_args);
+    let mut paths: Vec<(&'static str, Vec<Outcome>, Option<Vec<usize>>)> = vec![];
+    paths.push(("column", eval_cols(spec, &c.rows, &col_expr, &[]), Some(vec![])));
+    if !c.cuts.is_empty() {
+        paths.push(("column/resliced", eval_cols(spec, &c.rows, &col_expr, &c.cuts), Some(c.cuts.clone())));
+    }
+    let lit_exprs: Vec<String> = c.rows.iter().map(|t| call_with_literals(spec, &spec.tpl, t, c.bare_null)).collect();
+    paths.push(("literal", eval_lits(&lit_exprs), None));
+    if c.lit_mask.iter().any(|m| *m) {
+        let mixed: Vec<String> = (0..nk)
+            .map(|k| if c.lit_mask[k] { lit(&c.rows[0][k], spec.kinds[k].coltype(), c.bare_null) } else { format!("a{}", k) })
+            .collect();
+        paths.push(("mixed", eval_cols(spec, &c.rows, &render(&spec.tpl, &mixed), &c.cuts), Some(c.cuts.clone())));
+    }
+
+    let mut failures: Vec<Failure> = vec![];
+    for (pname, outs, cuts) in &paths {
+        for (row, out) in outs.iter().enumerate() {
+            match out {
+                Err(e) => {
+                    if e.starts_with("WRONG-ROWCOUNT") {
+                        return Verdict::Fail(format!("{}: {} path: {}", spec.name, pname, e));
+                    }
+                    if is_panic(e) {
+                        obs.label(format!("panic:{}", spec.name));
+                    } else {
+                        obs.label(format!("err:{}:{}", pname, spec.name));
+                    }
+                }
+                Ok(got) => {
+                    if let Err(msg) = agrees(spec, got, &want[row]) {
+                        failures.push(Failure {
+                            path: pname,
+                            row,
+                            batch_first: cuts.as_ref().map(|cu| batch_first(cu, n, row)),
+                            got: got.clone(),
+                            other: None,
+                            vs_reference: true,
+                            msg: format!("differs from the {}", msg),
+                        });
+                    }
+                }
+            }
+        }
+    }
+    // path agreement: on every tuple all successful paths give the same value
+    for row in 0..n {
+        let mut first: Option<(&'static str, &Value, Option<usize>)> = None;
+        for (pname, outs, cuts) in &paths {
+            if let Ok(v) = &outs[row] {
+                match first {
+                    None => first = Some((pname, v, cuts.as_ref().map(|cu| batch_first(cu, n, row)))),
+                    Some((p0, v0, b0)) => {
+                        if !value_eq(v0, v, 0.0) {
+                            failures.push(Failure {
+                                path: pname,
+                                row,
+                                batch_first: cuts.as_ref().map(|cu| batch_first(cu, n, row)),
+                                got: v.clone(),
+                                other: Some((p0, v0.clone(), b0)),
+                                vs_reference: false,
+                                msg: format!("path disagreement: the {} path gives {}", p0, fmt_value(v0)),
+                            });
+                        }
+                    }
+                }
+            }
+        }
+    }
+    // law: another expression must give the same value on every row
+    if let Some(alt) = &spec.same_as {
+        let alt_out = eval_cols(spec, &c.rows, &render(alt, &col_args), &[]);
+        for row in 0..n {
+            if let (Ok(a), Ok(b)) = (&paths[0].1[row], &alt_out[row]) {
+                if !value_eq(a, b, 0.0) {
+                    failures.push(Failure {
+                        path: "column",
+                        row,
+                        batch_first: Some(0),
+                        got: a.clone(),
+                        other: None,
+                        vs_reference: true,
+                        msg: format!("law violated: {} gives {}", render(alt, &col_args), fmt_value(b)),
+                    });
+                }
+            }
+        }
+    }
+
+    if failures.is_empty() {
+        return Verdict::Pass;
+    }
+    let describe = |f: &Failure| {
+        format!(
+            "{} [{} path, row {}]: {} = {} {}",
+            spec.name,
+            f.path,
+            f.row,
+            call_with_literals(spec, &spec.tpl, &c.rows[f.row], c.bare_null && (f.path == "literal" || f.path == "mixed")),
+            fmt_value(&f.got),
+            f.msg
+        )
+    };
+    let mut known: Option<(String, String)> = None;
+    for f in &failures {
+        match classify(spec, c, f) {
+            Some(id) => {
+                if known.is_none() {
+                    known = Some((id.to_string(), describe(f)));
+                }
+            }
+            None => return Verdict::Fail(describe(f)),
+        }
+    }
+    let (id, msg) = known.unwrap();
+    Verdict::Known { id, msg }
+}
+
+// ---------------------------------------------------------------------------
+// checks (one per family, same machinery)
+// ---------------------------------------------------------------------------
+
+macro_rules! family_check {
+    ($ty:ident, $name:expr, $fam:expr, $quick:expr) => {
+        pub struct $ty;
+        impl Check for $ty {
+            type Case = FnCase;
+            fn name(&self) -> &'static str {
+                $name
+            }
+            fn rule(&self) -> &'static str {
+                "some argument tuple has a NULL, an empty or non-ASCII string, a number <= 0 / >= 2^31 / non-finite / >= 2^52, or a date before 1970 or at a month end"
+            }
+            fn cases(&self, tier: Tier) -> u32 {
+                tier.pick($quick, $quick * 40)
+            }
+            fn strategy(&self, tier: Tier) -> BoxedStrategy<FnCase> {
+                case_strategy($fam, tier)
+            }
+            fn max_shrink_iters(&self) -> u32 {
+                300
+            }
+            fn test(&self, c: &FnCase, obs: &mut Obs) -> Verdict {
+                run_case(c, obs)
+            }
+        }
+    };
+}
+family_check!(MathFns, "math", Fam::Math, 16000);
+family_check!(StringFns, "string", Fam::Str, 20000);
+family_check!(BitDateCondFns, "bitwise_date_conditional", Fam::BitDateCond, 20000);
+family_check!(LawFns, "laws_encodings_digests", Fam::Laws, 12000);
+family_check!(PathFns, "path_agreement_only", Fam::Paths, 8000);
 
 pub fn property() -> Property {
-    Property { id: "C36", level: "exploration", assumptions: &[], checks: vec![] }
+    Property {
+        id: "C36",
+        level: "exploration",
+        assumptions: &[
+            "documented = tests/function_validation_tests.rs pairs + conventions and the plan's Trino signatures; tuples no repo document settles (SUBSTR start<=0, SPLIT_PART out of range, TRANSLATE with short `to`, DATE_DIFF partial months, CONCAT with NULL, DAY_OF_WEEK numbering, special-casing Unicode letters, non-space whitespace) are checked for path agreement only",
+            "an engine error or panic is not a wrong value (labelled err:/panic:)",
+            "floating results: relative tolerance 1e-12 against Rust std (1e-9 for LOG(b,x)); ROUND(x,d) by a validity predicate",
+            "for functions without reference (SOUNDEX, URL_EXTRACT_*, XXHASH64, ...) only NULL propagation and path agreement are checked",
+            "non-deterministic functions (RANDOM, NOW, UUID, CURRENT_*) excluded; array/map/timestamp functions not covered",
+        ],
+        checks: vec![Box::new(MathFns), Box::new(StringFns), Box::new(BitDateCondFns), Box::new(LawFns), Box::new(PathFns)],
+    }
 }
